@@ -168,6 +168,43 @@ CHECKS = {
         "(no preemption inside a bytecode); Condition.notify wakes FIFO; "
         "serial (DummyComm) runs."),
   technique="schedule-controlled property-based testing (deterministic scheduler shim, Hypothesis-drawn and bounded-preemption enumerated schedules) with history invariants"),
+ 'C12': dict(
+  text=("16 scheme classes x their boolean/enumerated options x dim x "
+        "with/without solids x clean: stage 1 (pairwise-covering + drawn "
+        "sample in quick, full product in thorough) runs configure_solver, "
+        "setup_properties on plain arrays and get_equations, then an "
+        "independent requirement scan (hook signatures + documented "
+        "pair-symbol formulas) over every equation and stepper, evaluator "
+        "and compiler construction and code generation; stage 2 (sampled) "
+        "JIT-compiles and runs 3 steps on a filled lattice (periodic box, or "
+        "a block on its wall when solids exist) and requires finite values."),
+  note=("ElasticSolidsScheme (no setup_properties) is outside C12; stage 2 "
+        "forces has_ghosts on in the periodic box and uses scipy from the "
+        "offline wheelhouse for ISPH."),
+  technique="enumeration + property-based sampling (Hypothesis) of configurations with an independent requirement oracle, plus run-to-finite smoke oracle"),
+ 'C13': dict(
+  text=("Generated n x n systems (n=1..6, 1-3 right-hand sides, eleven "
+        "families incl. permuted diagonally dominant, zero/tiny pivots, "
+        "scaled, singular) through augmented_matrix + gj_solve, in Python "
+        "and transpiled (one JIT compile), with an SVD/exact-rational "
+        "residual oracle; helper products vs numpy; symmetric 3x3 matrices "
+        "(repeated/zero eigenvalues, graded entries, 1e+-8 scaling) through "
+        "the eigen-decomposition wrappers with orthonormality, residual and "
+        "eigvalsh oracles."),
+  note=("Entries below 1e-290*max|A| are outside the eigen domain; the "
+        "documented 1e-12 pivot literal is honoured."),
+  technique="property-based testing (Hypothesis) against numpy/SVD/rational reference oracles, Python vs transpiled differential"),
+ 'C16': dict(
+  text=("Histories of 1-40 (advect, inlet.update, outlet.update) steps for "
+        "the five shipped inlet/outlet families (updaters from "
+        "InletOutletManager.get_inlet_outlet), drawn normals (axis aligned "
+        "and oblique), zone lengths, dims, velocity fields of both signs and "
+        "active stages; the three arrays are compared after every update "
+        "with a uid-tracked record model of the documented zone rule, plus "
+        "bookkeeping identities."),
+  note=("Particles are kept out of the +-1e-5 threshold band by "
+        "construction; one fluid array, unit normals."),
+  technique="model-based property-based testing (Hypothesis histories) against a record model"),
 }
 
 NOT_APPLICABLE = [
